@@ -3,6 +3,7 @@
   Property theorems only; helper lemmas live in FjallModel/Lemmas.
 -/
 import FjallModel.Lemmas.ReadJournal
+import FjallModel.Lemmas.ReaderSound
 namespace Fjall.Journal
 open Fjall
 
@@ -29,6 +30,24 @@ theorem c15_roundtrip (p : Params) (c : Codec) (h : Bytes → Nat) (hp : p.Valid
   obtain ⟨h1, _, _, _, _, h6⟩ := hcl
   simp [ReadResult.prepend, RState.stopLen, h1, hpos]
 
+/-- **No batch without its checksum (arbitrary bytes).** Whatever bytes the journal file holds –
+    written by this writer, torn, altered, or never written by fjall at all – every batch the
+    reader hands to recovery sits in the file between a Start marker and an End marker, has
+    exactly the number of payload entries the Start marker announces, consists of exactly the
+    entries decoded in between, and the End marker's stored checksum equals the hash of the
+    canonical re-encoding of exactly those entries. There is no other way for `readJournal` to
+    emit a batch; an altered file can therefore yield different data only through a collision of
+    the hash function (a parameter here; xxh3-64 in the code). No hypothesis on `x`, `p`, `c`, `h`. -/
+theorem c15_emitted_batch_authenticated (p : Params) (c : Codec) (h : Bytes → Nat) (x : Bytes)
+    (b : Batch) (hb : b ∈ (readJournal p c h x).batches) :
+    ∃ (pre seg post : Bytes) (es : List Entry) (sum : Nat),
+      x = pre ++ seg ++ post ∧
+      Parses p c seg (.start es.length b.seqno :: es ++ [.fin sum]) ∧
+      (∀ e ∈ es, e.isPayload = true) ∧
+      b.items = itemsOf es ∧ b.clears = clearsOf es ∧
+      h (encodeBody p c es) = sum :=
+  readJournal_sound p c h x b hb
+
 /-! Non-vacuity: the hypotheses are met by the constants of the pinned source, by an identity
     codec, and by a concrete two-batch journal mixing a compressed item, a tombstone and a clear. -/
 
@@ -48,5 +67,17 @@ example : ∀ b ∈ [exBatch1, exBatch2], b.WF idCodec := by
   simp at hb
   rcases hb with rfl | rfl <;>
     simp [WBatch.WF, exBatch1, exBatch2, Entry.isPayload, Entry.WF, Item.WF, Item.stored, idCodec]
+
+/-- non-vacuity of `c15_emitted_batch_authenticated`: batches are emitted for a real journal -/
+example (h : Bytes → Nat) (hh : ∀ x, h x < 2^64) :
+    (readJournal Params.default idCodec h
+      (encodeBatches Params.default idCodec h [exBatch1, exBatch2])).batches.length = 2 := by
+  rw [c15_roundtrip Params.default idCodec h (by decide) idCodec_law hh [exBatch1, exBatch2]
+    (by
+      intro b hb
+      simp at hb
+      rcases hb with rfl | rfl <;>
+        simp [WBatch.WF, exBatch1, exBatch2, Entry.isPayload, Entry.WF, Item.WF, Item.stored, idCodec])]
+  rfl
 
 end Fjall.Journal
